@@ -1664,6 +1664,32 @@ fn walk_case<K: Kern<D>, const D: usize>(cx: &mut Ctx, r: &mut Rng, idx: usize, 
     let post = cx.tr.project(&dt);
     cx.tr.emit("Adopt", 0, serde_json::json!({"D": D, "why": format!("state after {done} silent flips")}), serde_json::json!({}), Some(post), false);
     op_verdicts(&mut cx.tr, 0, &dt, 8);
+    // "skipped violation + 1": the library's own brute-force search sees a violation that its flip verifier skips
+    // (the degenerate-flip class). From such a state every further legal flip is applied on a copy and judged: a
+    // verifier that stops scanning at a skipped facet would miss the ordinary violation the extra flip creates.
+    if !for_repair && D == 3 {
+        // a flipped-away state that the flip verifier ACCEPTS: either the walk came back to a Delaunay triangulation
+        // or a violation is being skipped (the library's brute-force search skips the same class, so it cannot tell)
+        let skipped = dt.is_valid().is_ok();
+        if skipped {
+            let cks: Vec<CellKey> = dt.tds().cell_keys().collect();
+            let mut tried = 0;
+            'ext: for ck in cks {
+                for i in 0..=(D as u8) {
+                    if tried >= (if cx.thorough { 40 } else { 16 }) {
+                        break 'ext;
+                    }
+                    let mut probe = dt.clone();
+                    if probe.flip_k2(delaunay::core::facet::FacetHandle::new(ck, i)).is_ok() && probe.as_triangulation().is_valid().is_ok() {
+                        tried += 1;
+                        let post = cx.tr.project(&probe);
+                        cx.tr.emit("Adopt", 1, serde_json::json!({"D": D, "why": "one more legal flip from a state with a skipped violation"}), serde_json::json!({}), Some(post), false);
+                        op_verdicts(&mut cx.tr, 1, &probe, 8);
+                    }
+                }
+            }
+        }
+    }
     if for_repair {
         let mut c = op_clone(&mut cx.tr, 0, 1, &dt);
         if !op_repair(&mut cx.tr, 0, &mut dt, false, None, 8) {
@@ -1759,7 +1785,9 @@ fn verdict_tree<K: Kern<D>, const D: usize>(cx: &mut Ctx, r: &mut Rng, idx: usiz
     let mut seen: Vec<Vec<Vec<i64>>> = Vec::new();
     let mut frontier: Vec<Dt<K, D>> = vec![base];
     let cap = if cx.thorough { 400 } else { 120 };
-    for depth in 0..=2 {
+    // depth 3 only below ACCEPTED depth-2 states: a flipped-away state the verifier accepts is back at a Delaunay
+    // triangulation or hides a skipped violation; one more flip from there must be judged correctly too
+    for depth in 0..=3 {
         let mut next: Vec<Dt<K, D>> = Vec::new();
         for dt in &frontier {
             let key = cells_as_ids(&mut cx.tr, dt);
@@ -1775,7 +1803,7 @@ fn verdict_tree<K: Kern<D>, const D: usize>(cx: &mut Ctx, r: &mut Rng, idx: usiz
             if !op_verdicts(&mut cx.tr, 0, dt, 8) {
                 return;
             }
-            if depth == 2 {
+            if depth == 3 || (depth == 2 && dt.is_valid().is_err()) {
                 continue;
             }
             let cks: Vec<CellKey> = dt.tds().cell_keys().collect();
